@@ -175,6 +175,14 @@ class Component(CaselessDict):
     #    """
     #    return name in not_compliant
 
+    def copy(self):
+        """A copy of the properties, without the subcomponents."""
+        new = super().copy()
+        if new.name != self.name:
+            # a component of unknown type has its name set on the instance
+            new.name = self.name
+        return new
+
     def __bool__(self):
         """Returns True, CaselessDict would return False if it had no items.
         """
